@@ -168,7 +168,7 @@ def build_space(spec, between=None):
     hs = hierarchical.HSpace(kvs, truncate=spec['truncate'], disparity=disp, **kw)
     for step in spec['history']:
         if between is not None: between(hs)
-        hs.refine({int(l): set(tuple(c) for c in cells) for l, cells in step.items()})
+        hs.refine({int(l): set(tuple(c) for c in cells) for l, cells in step.items()}, **({'truncate': True} if spec.get('tadm') else {}))
     return hs
 
 
@@ -200,8 +200,8 @@ def enumerate_histories(dim, n, maxcalls, rng, limit):
 def space_list(thorough, seed):
     rng = random.Random(1234 + seed)
     specs = []
-    def add(dim, p, n, hist, trunc, disp, bd, interleave=False):
-        specs.append({'dim': dim, 'p': p, 'n': n, 'history': hist, 'truncate': trunc, 'disparity': disp, 'bdspecs': bd, 'interleave': interleave})
+    def add(dim, p, n, hist, trunc, disp, bd, interleave=False, tadm=False):
+        specs.append({'dim': dim, 'p': p, 'n': n, 'history': hist, 'truncate': trunc, 'disparity': disp, 'bdspecs': bd, 'interleave': interleave, **({'tadm': True} if tadm else {})})
     # fixed family: the shapes named in the property (corner / nested / isolated cell / multi-level simultaneous marks / level-skipping interaction)
     fixed = [
         (1, 2, 3, [{0: [[0]]}]), (1, 2, 3, [{0: [[1]]}]), (1, 1, 3, [{0: [[0], [2]]}]), (1, 2, 4, [{0: [[0], [1]]}, {1: [[0], [1]]}]),
@@ -220,6 +220,11 @@ def space_list(thorough, seed):
     add(1, 2, 3, [{0: [[0]]}], False, 'inf', 'default'); add(2, 1, 2, [{0: [[0, 0]]}], True, 'inf', 'default')
     add(1, 2, 4, [{0: [[0], [1]]}, {1: [[0], [1]]}], False, 'inf', [(0, 0)]); add(2, 1, 2, [{0: [[0, 0]]}, {1: [[0, 0]]}], True, 'inf', [(0, 0), (1, 1)])
     add(1, 2, 4, [{0: [[0]]}, {1: [[0]]}], False, 1, []); add(1, 1, 4, [{0: [[0]]}, {1: [[0]]}, {2: [[0]]}], True, 2, []); add(2, 1, 3, [{0: [[0, 0]]}, {1: [[0, 0]]}], False, 1, [])
+    # T-admissible refinement (refine(..., truncate=True)) with finite disparity: HB functions interact across more than `disparity` levels
+    for trunc in (False, True):
+        add(1, 2, 4, [{0: [[0]]}, {1: [[0]]}, {2: [[0]]}], trunc, 1, [], tadm=True)
+        add(2, 1, 3, [{0: [[0, 0]]}, {1: [[0, 0]]}, {2: [[0, 0]]}], trunc, 1, [], tadm=True)
+    add(1, 3, 5, [{0: [[0]]}, {1: [[0]]}, {2: [[0]]}, {3: [[0]]}], True, 2, [], tadm=True)
     # assemble - refine - assemble on the same object (caches must follow the refinement)
     add(1, 2, 4, [{0: [[0], [1]]}, {1: [[0], [1]]}, {0: [[3]]}], False, 'inf', [], interleave=True)
     add(2, 1, 3, [{0: [[0, 0], [0, 1], [1, 0], [1, 1]]}, {1: [[0, 0], [0, 1], [1, 0], [1, 1]]}, {1: [[2, 2]]}], False, 'inf', [], interleave=True)
@@ -440,7 +445,7 @@ def check_space(args):
 TRANSFORMS = {
     None: None,
     'drop second interlevel block': lambda s: s.replace('insert_block(A_hb_interlevel2, new[k], neighbors[k])', 'pass'),
-    'interlevel rows only one level below': lambda s: s.replace('for lv in range(max(0, k - hs.disparity), k):', 'for lv in range(max(0, k - 1), k):'),
+    'interlevel rows only one level below': lambda s: s.replace('for lv in range(max(0, k - hs.disparity), k):', 'for lv in range(max(0, k - 1), k):').replace('                for lv in range(k):\n                    indices |= set(hs.hmesh.function_grandchildren', '                for lv in range(max(0, k - 1), k):\n                    indices |= set(hs.hmesh.function_grandchildren'),
     'functional: THB transform not transposed': lambda s: s.replace('rhs = self.hs.thb_to_hb().T @ rhs', 'rhs = self.hs.thb_to_hb() @ rhs'),
     'symmetric: mirrored block not transposed': lambda s: s.replace('A_hb_interlevel2 = A_hb_interlevel.T', 'A_hb_interlevel2 = A_hb_interlevel'),
 }
@@ -458,7 +463,7 @@ def build(between=None):
     hs = hierarchical.HSpace(kvs, truncate=spec['truncate'], disparity=disp, **kw)
     for step in spec['history']:
         if between is not None: between(hs)
-        hs.refine({int(l): set(tuple(c) for c in cells) for l, cells in step.items()})
+        hs.refine({int(l): set(tuple(c) for c in cells) for l, cells in step.items()}, **({'truncate': True} if spec.get('tadm') else {}))
     return hs
 geo = geometry.unit_square() if spec['dim'] == 2 else geometry.line_segment(0.0, 1.0)
 bad = []
@@ -468,18 +473,19 @@ try:
     hs = build(warm)
     I = hs.represent_fine()
     kvf = hs.knotvectors(hs.numlevels - 1)
-    for name, vf in (('mass', vform.mass_vf(spec['dim'])), ('stiffness', vform.stiffness_vf(spec['dim']))):
-        Af = assemble.assemble(vf, kvf, geo=geo)
+    for name, mk in (('mass', lambda: vform.mass_vf(spec['dim'])), ('stiffness', lambda: vform.stiffness_vf(spec['dim']))):
+        Af = assemble.assemble(mk(), kvf, geo=geo)
         ref = (I.T @ Af @ I).toarray()
         for symmetric in (False, True):
-            A = assemble.assemble(vf, hs, geo=geo, symmetric=symmetric).toarray()
+            A = assemble.assemble(mk(), hs, geo=geo, symmetric=symmetric).toarray()
             if A.shape != ref.shape or not np.allclose(A, ref, rtol=1e-9, atol=1e-11): bad.append('%s symmetric=%s: max deviation %.3g' % (name, symmetric, np.abs(A - ref).max() if A.shape == ref.shape else -1))
     f = lambda *x: 1.0 + x[0]
     bf = assemble.assemble(vform.L2functional_vf(spec['dim'], physical=True), kvf, geo=geo, f=f).ravel()
     b = assemble.assemble(vform.L2functional_vf(spec['dim'], physical=True), hs, geo=geo, f=f)
     if not np.allclose(b, I.T @ bf, rtol=1e-9, atol=1e-12): bad.append('functional')
 except Exception as e:
-    bad.append('exception %s: %s' % (type(e).__name__, str(e)[:100]))
+    # an exception of the replay script itself is NOT a reproduction (unless the solver side reported an exception of the code under test)
+    print(json.dumps({'reproduced': bool(bad) or bool(w.get('expect_exception')), 'bad': bad + ['exception %s: %s' % (type(e).__name__, str(e)[:100])]})); sys.exit(0)
 print(json.dumps({'reproduced': bool(bad), 'bad': bad}))
 '''
 
@@ -514,7 +520,7 @@ def main():
         run.record_queries('hierarchical-assembly', r['results'], solver_s=r['solver_s'], bound={'space': spec, **r['info']},
                            sample={'space': spec, **r['info'], 'answers': r['results']})
         if any(v == 'sat' for v in r['results'].values()):
-            rp = realbuild.run_real(REPLAY, {'spec': spec}, timeout=1800)
+            rp = realbuild.run_real(REPLAY, {'spec': spec, 'expect_exception': any('exception' in str(v) for v in r['bad'].values())}, timeout=1800)
             key = 'assembly:%s' % ('bdspecs=None' if spec['bdspecs'] == 'default' else ','.join(sorted(k for k, v in r['results'].items() if v == 'sat'))[:80])
             run.report(key, 'space %s (%s): solver: %s %s; real assembly vs I^T A I: %s' % (json.dumps(spec), r['info'], {k: v for k, v in r['results'].items() if v == 'sat'}, r['bad'], rp['bad']),
                        {'spec': spec}, rp['reproduced'])
